@@ -213,3 +213,50 @@ impl Drop for ChildGuard {
     }
   }
 }
+
+// ---------------------------------------------------------------------------------------------
+// Seam H9: `LoadFuture`'s state lock made visible to the scheduler. Behaviourally the
+// parking_lot mutex it wraps; every acquisition / release is reported through the lock hook of
+// `fibre::sync::verif_hook`, so the boundaries of the load future's critical sections (state check,
+// waiter registration, completion) are scheduling points like those of the hybrid locks.
+pub(crate) struct PointMutex<T>(parking_lot::Mutex<T>);
+
+pub(crate) struct PointGuard<'a, T> {
+  guard: Option<parking_lot::MutexGuard<'a, T>>,
+  addr: usize,
+}
+
+impl<T> PointMutex<T> {
+  pub(crate) fn new(value: T) -> Self {
+    Self(parking_lot::Mutex::new(value))
+  }
+
+  pub(crate) fn lock(&self) -> PointGuard<'_, T> {
+    let addr = self as *const Self as usize;
+    fibre::sync::verif_hook::lock_event(0, addr, 0);
+    PointGuard {
+      guard: Some(self.0.lock()),
+      addr,
+    }
+  }
+}
+
+impl<T> std::ops::Deref for PointGuard<'_, T> {
+  type Target = T;
+  fn deref(&self) -> &T {
+    self.guard.as_ref().unwrap()
+  }
+}
+
+impl<T> std::ops::DerefMut for PointGuard<'_, T> {
+  fn deref_mut(&mut self) -> &mut T {
+    self.guard.as_mut().unwrap()
+  }
+}
+
+impl<T> Drop for PointGuard<'_, T> {
+  fn drop(&mut self) {
+    drop(self.guard.take());
+    fibre::sync::verif_hook::lock_event(3, self.addr, 0);
+  }
+}
